@@ -132,3 +132,10 @@ CASES += [
     {"name": "step of the imported axis taken from the last two internal points", "kind": "twin", "edits": [
         (_DS18, "                axis.step = ipoints[1] - ipoints[0]\n", "                axis.step = ipoints[-1] - ipoints[-2]\n", 1)]},
 ]
+
+CASES += [
+    {"name": "unrecorded rank squeezed with the method of the array", "kind": "twin", "edits": [
+        (_MD18, "        return numpy.squeeze(data)\n    if ndim == 2:", "        return data.squeeze()\n    if ndim == 2:", 1)]},
+    {"name": "rank one restored by squeezing a named axis", "kind": "twin", "edits": [
+        (_MD18, "    if ndim == 1:\n        return data.reshape(-1)\n", "    if ndim == 1:\n        return data.reshape(-1, 1).squeeze(axis=1)\n", 1)]},
+]
